@@ -57,6 +57,18 @@ For every packet and every alias resolution the Remaining Length written in the 
 of bytes the remaining steps write, and the Property Length is exactly the number of property bytes.  (Whatever the
 steps write is what goes on the wire, in order, by `encoder_chunk_invariant`.) -/
 
+/-- **A packet is complete with its last byte.**  When `Encoder::encode` returns with steps left over, those steps still have
+    a byte to emit: a packet that ends in an empty field (a present but empty payload, an empty client id) is reported complete
+    by the call that writes its last byte, however full the buffer is - it is never left "being written" with nothing more
+    to write (which stranded a QoS 0 result, had the server's CONNACK / PUBACK for the completely written packet refused, and
+    re-sent a QoS 2 publish as a new message after a reconnect). -/
+theorem packet_complete_with_its_last_byte (steps : List Step) (free : Nat) (hok : (encodeCall steps free).2.2 = false)
+    (h : flattenSteps (encodeCall steps free).2.1 = some []) : (encodeCall steps free).2.1 = [] :=
+  encodeCall_rest_has_bytes steps free hok h
+
+/-- a PUBLISH with an empty payload into a buffer with room for exactly its bytes: complete -/
+example : (encodeCall [.u8 48, .vli 5, .u16 3, .slice [116, 47, 49], .slice []] 8).2.1 = [] := by decide
+
 /-- the bytes written have the length the steps add up to -/
 theorem wire_length_is_steps_length (steps : List Step) (bs : Bytes) (h : flattenSteps steps = some bs) :
     bs.length = stepsLen steps := flattenSteps_length steps bs h
